@@ -66,35 +66,4 @@ theorem noFail_runFrom (cfg : Cfg α) (ops : List (Op α)) {s : State α} (hq : 
   | nil => exact h
   | cons op ops ih => exact ih (hq.step cfg op) (h.step cfg hq op)
 
-/-- Two records agree in everything but the message queue. -/
-def SameButMsgQ (y y' : Conn α) : Prop :=
-  y'.owner = y.owner ∧ y'.v1 = y.v1 ∧ y'.packetQ = y.packetQ ∧ y'.cancelled = y.cancelled ∧
-    y'.exited = y.exited
-
-theorem SameButMsgQ.refl (y : Conn α) : SameButMsgQ y y := ⟨rfl, rfl, rfl, rfl, rfl⟩
-
-theorem trySendMsg_spares (cfg : Cfg α) (s : State α) (c m) (k : Cid) (y : Conn α) (hy : s.conns k = some y) :
-    ∃ y', (trySendMsg cfg s c m).conns k = some y' ∧ SameButMsgQ y y' := by
-  unfold trySendMsg
-  cases hx : s.conns c with
-  | none => exact ⟨y, hy, SameButMsgQ.refl y⟩
-  | some x =>
-    dsimp only
-    split
-    · simp only [emit_conns, setConn_conns]
-      split
-      · subst_vars
-        rw [hx] at hy; cases hy
-        exact ⟨_, rfl, rfl, rfl, rfl, rfl, rfl⟩
-      · exact ⟨y, hy, SameButMsgQ.refl y⟩
-    · exact ⟨y, hy, SameButMsgQ.refl y⟩
-
-theorem trySendHealth_spares (cfg : Cfg α) (s : State α) (c st) (k : Cid) (y : Conn α)
-    (hy : s.conns k = some y) :
-    ∃ y', (trySendHealth cfg s c st).conns k = some y' ∧ SameButMsgQ y y' := by
-  unfold trySendHealth
-  split
-  · exact ⟨y, hy, SameButMsgQ.refl y⟩
-  · exact trySendMsg_spares _ _ _ _ _ _ hy
-
 end IrohModel.C05
